@@ -365,3 +365,127 @@ Proof.
   - apply W. destruct (a_cons s); try discriminate; reflexivity.
   - rewrite O. unfold done_part. destruct (a_cons s); try discriminate; reflexivity.
 Qed.
+
+(* ------------------------------------------------------------------ *)
+(* each producer's accepted calls keep their order                     *)
+
+Definition ks_of (t : nat) (l : list (nat * nat)) : list nat :=
+  map snd (filter (fun m : nat * nat => Nat.eqb (fst m) t) l).
+Fixpoint incr_from (lo : nat) (l : list nat) : Prop :=
+  match l with [] => True | x :: r => (lo <= x)%nat /\ incr_from (S x) r end.
+Definition pushed (p : ppc) : bool := match p with PUnlock false | PWake => true | _ => false end.
+Definition abound (x : pthread) : nat := if pushed (p_pc x) then S (p_k x) else p_k x.
+
+Lemma incr_from_snoc k : forall l lo, incr_from lo l -> Forall (fun x => (x < k)%nat) l -> (lo <= k)%nat ->
+  incr_from lo (l ++ [k]).
+Proof.
+  induction l as [|x r IH]; intros lo Hi Hf Hlo; simpl in *.
+  - auto.
+  - destruct Hi as [H1 H2]. inversion Hf; subst. split; [exact H1|]. apply IH; auto.
+Qed.
+
+Definition PInv (s : asys) : Prop :=
+  forall t, incr_from 0 (ks_of t (a_accepted s)) /\
+            Forall (fun x => (x < abound (a_thr s t))%nat) (ks_of t (a_accepted s)).
+
+Lemma pinv_frame s s' :
+  PInv s -> a_accepted s' = a_accepted s ->
+  (forall u, (abound (a_thr s u) <= abound (a_thr s' u))%nat) -> PInv s'.
+Proof.
+  intros P E B t. rewrite E. destruct (P t) as [H1 H2]. split; [exact H1|].
+  eapply Forall_impl; [|exact H2]. intros x Hx. simpl in Hx. specialize (B t). lia.
+Qed.
+
+Lemma abound_upd thr t x' : (abound (thr t) <= abound x')%nat ->
+  forall u, (abound (thr u) <= abound (upd thr t x' u))%nat.
+Proof. intros H u. unfold upd. destruct (Nat.eqb_spec u t); subst; [exact H|lia]. Qed.
+
+Lemma abound_p_next A k : abound (p_next A k) = S k.
+Proof. unfold p_next. destruct (Nat.ltb (S k) (as_msgs A)); reflexivity. Qed.
+
+Lemma astep_pinv fixed A s t ch s' l : PInv s -> astep fixed A s t ch = Some (s', l) -> PInv s'.
+Proof.
+  intros P Hs. unfold astep in Hs. destruct t as [|t].
+  - (* the writer thread never touches the accepted list; wake-up keeps every producer's bound *)
+    assert (E : a_accepted s' = a_accepted s /\ (forall u, (abound (a_thr s u) <= abound (a_thr s' u))%nat)).
+    { unfold cstep in Hs. destruct (a_cur s) as [ct ck].
+      destruct (a_cons s); try discriminate;
+        try (destruct (a_queue s) as [|[tt kk|] q]; try discriminate); inv_some Hs; simpl; split; auto.
+      all: intros u; unfold wake_joiners, abound; destruct (p_pc (a_thr s u)) eqn:E; simpl; rewrite ?E; simpl; lia. }
+    destruct E as [E1 E2]. eapply pinv_frame; eauto.
+  - destruct (Nat.ltb (as_n A) (S t)); [discriminate|]. unfold pstep in Hs.
+    set (T := S t) in *. clearbody T.
+    assert (Hk : forall p, p_pc (a_thr s T) = p -> abound (a_thr s T) = if pushed p then S (p_k (a_thr s T)) else p_k (a_thr s T)).
+    { intros p Hp. unfold abound. rewrite Hp. reflexivity. }
+    destruct (p_pc (a_thr s T)) eqn:Epc; try discriminate; specialize (Hk _ eq_refl); simpl in Hk;
+      try (solve [ repeat match type of Hs with context [if ?b then _ else _] => destruct b end;
+                   repeat match type of Hs with context [match ?c with _ => _ end] => destruct c eqn:? end;
+                   inv_some Hs; (eapply pinv_frame; [exact P | reflexivity |]); simpl;
+                   apply abound_upd; rewrite Hk, ?abound_p_next; unfold abound; simpl; lia ]).
+    + (* PPush: call k of thread T joins the accepted list *)
+      inv_some Hs. intros u. simpl. unfold ks_of. rewrite filter_app, map_app. simpl.
+      destruct (P u) as [H1 H2]. unfold upd. destruct (Nat.eqb_spec T u).
+      * subst u. rewrite Nat.eqb_refl. simpl. rewrite Hk in H2. split.
+        -- apply incr_from_snoc; [exact H1|exact H2|lia].
+        -- apply Forall_app. split.
+           ++ eapply Forall_impl; [|exact H2]. intros x Hx. simpl in *. unfold abound. simpl. lia.
+           ++ constructor; [unfold abound; simpl; lia|constructor].
+      * assert (Nat.eqb u T = false) as -> by (apply Nat.eqb_neq; congruence).
+        simpl. rewrite !app_nil_r. split; [exact H1|exact H2].
+Qed.
+
+Theorem async_accept_order fixed A sched : PInv (exec asys (astep fixed A) (ainit A) sched).
+Proof.
+  apply inv_exec.
+  - intros; eapply astep_pinv; eauto.
+  - intros t. simpl. split; [exact I|constructor].
+Qed.
+
+(* ------------------------------------------------------------------ *)
+(* the code as first found: a concrete history in which two messages are refused by the full
+   queue and leaked, the NULL sentinel is refused too, and destroy never returns; the same
+   history on the repaired code ends with everything released and destroy returned *)
+
+Definition ex_ascen : ascen :=
+  {| as_n := 1; as_msgs := 4; as_level := fun _ _ => 512;
+     as_handlers := [{| h_kind := HCap; h_level := 0; h_fmt := 0 |}]; as_lowest := 0; as_usable := usable_of 4 |}.
+Definition ex_sched : list (nat * nat) :=
+  repeat (1, 0)%nat 60 ++ flat_map (fun _ => [(0, 0); (1, 0)]%nat) (seq 0 100).
+
+Lemma unrepaired_witness :
+  let s := exec asys (astep false ex_ascen) (ainit ex_ascen) ex_sched in
+  a_dropped s = [(1, 2); (1, 3)]%nat /\ a_live s = 6%nat /\ a_destroyed s = false /\
+  a_cons s = CBlocked /\ p_pc (a_thr s 1%nat) = PJoinBlocked /\
+  (forall t ch, astep false ex_ascen s t ch = None).
+Proof.
+  vm_compute. repeat split; try reflexivity.
+  intros t ch. destruct t as [|[|t]]; reflexivity.
+Qed.
+
+Lemma repaired_witness :
+  let s := exec asys (astep true ex_ascen) (ainit ex_ascen) ex_sched in
+  a_dropped s = [(1, 2); (1, 3)]%nat /\ a_live s = 0%nat /\ a_destroyed s = true /\
+  a_cons s = CEnd /\ p_pc (a_thr s 1%nat) = PEnd /\ a_consumed s = a_accepted s /\
+  lines_of (a_out s 0%nat) = [(1, 0); (1, 1)]%nat.
+Proof. vm_compute. repeat split; reflexivity. Qed.
+
+(* the refused message is released by the producer before its next call (repaired code) *)
+Lemma refused_message_released A s t k :
+  p_pc (a_thr s t) = PUnlock true -> p_k (a_thr s t) = k ->
+  exists s1 l1 s2 l2 s3 l3,
+    pstep true A s t = Some (s1, l1) /\ pstep true A s1 t = Some (s2, l2) /\ pstep true A s2 t = Some (s3, l3) /\
+    a_live s3 = pred (pred (a_live s)) /\ a_dropped s3 = a_dropped s ++ [(t, k)] /\
+    a_thr s3 t = p_next A k /\ a_queue s3 = a_queue s /\ a_accepted s3 = a_accepted s.
+Proof.
+  intros Hpc Hk.
+  set (s1 := a_set_thr (a_set_wlock s false) t {| p_pc := PFreePay; p_k := p_k (a_thr s t) |}).
+  set (s2 := a_set_thr (a_set_live s1 (pred (a_live s1))) t {| p_pc := PFreeMsg; p_k := k |}).
+  set (s3 := a_set_thr (a_drop (a_set_live s2 (pred (a_live s2))) (t, k)) t (p_next A k)).
+  assert (H1 : a_thr s1 t = {| p_pc := PFreePay; p_k := k |}) by (simpl; rewrite upd_same, Hk; reflexivity).
+  assert (H2 : a_thr s2 t = {| p_pc := PFreeMsg; p_k := k |}) by (simpl; rewrite !upd_same; reflexivity).
+  exists s1, (ev OMunlock cell_wmtx 0 0 0), s2, (LPlain [(note_free, 0)]), s3, (LPlain [(note_free, 0)]).
+  split. { unfold pstep. rewrite Hpc. reflexivity. }
+  split. { unfold pstep. rewrite H1. reflexivity. }
+  split. { unfold pstep. rewrite H2. reflexivity. }
+  subst s3. simpl. rewrite !upd_same. simpl. repeat split; reflexivity.
+Qed.
